@@ -92,7 +92,7 @@ def run(ctx):
     d, rng = ctx.driver, ctx.rng
     quick = ctx.tier == "quick"
     nr = numpy.random.RandomState(ctx.seed * 13 + 5)
-    ncases = 40 if quick else 400
+    ncases = 40 if quick else 1600
     for case in range(ncases):
         norb = rng.choice([1, 2, 2, 3]) if quick else rng.choice([1, 2, 3, 3])
         form = rng.choice(["restricted", "restricted", "blockdiag", "spinmix"])
